@@ -202,7 +202,11 @@ func main() {
 			nNontriv++
 		}
 		if o.Status != StDischarged {
-			if f, ok := known[o.Rule+"|"+o.Key]; ok && o.Status == StViolated {
+			f, ok := known[o.Rule+"|"+o.Key]
+			if !ok && o.AltKey != "" {
+				f, ok = known[o.Rule+"|"+o.AltKey]
+			}
+			if ok && o.Status == StViolated {
 				o.Known = true
 				fmt.Printf("KNOWN-FINDING: property=%s %s [%s %s] %s\n", p.ID, f.What, o.Rule, o.Key, o.Pos)
 				continue
